@@ -109,6 +109,17 @@ def _cases(prop: str, tier: str, rng: random.Random) -> list[dict]:
     return _corpus(prop) + scripted(prop) + [gen_case(rng, prop, i) for i in range(COUNTS[tier])]
 
 
+def _keepalive_probe() -> list:
+    """C12: tasks must be strongly referenced while tracked (independent of the trace machinery)"""
+    import subprocess as _sp
+    env = {'PYTHONPATH': f'{coqrun.REPO}/src:{VERIF}', 'PYTHONHASHSEED': '0', 'PATH': '/usr/bin:/bin'}
+    r = _sp.run(['/venv/bin/python', '-m', 'harness.taskmgr_keepalive'], cwd=VERIF, env=env, capture_output=True,
+                text=True, timeout=120)
+    if r.returncode != 0:
+        return [{'what': 'keep-alive probe crashed: ' + r.stderr[-500:], 'case': {'kind': 'keepalive'}}]
+    return [{'what': w, 'case': {'kind': 'keepalive'}} for w in json.loads(r.stdout)]
+
+
 def run(prop: str, tier: str, seed: int, scratch: Path, replay=None, model_ok=True) -> dict:
     rng = random.Random(f'{prop}-{seed}')
     if replay:
@@ -193,6 +204,9 @@ def run(prop: str, tier: str, seed: int, scratch: Path, replay=None, model_ok=Tr
             wellformed_bad += [base + x for x in coqrun.parse_nats(m2.group(1))]
     else:
         corr_failures.append({'error': 'model does not build'})
+
+    if prop == 'C12' and not replay:
+        spec_violations += _keepalive_probe()
 
     samples = []
     for r in results:
